@@ -234,6 +234,7 @@ static std::set<std::string> g_known;  // known-finding signatures (suppressed)
 static double g_deadline = 0;   // monotonic seconds; 0 = none
 static int g_tier = 0;          // 0 quick, 1 thorough
 static bool g_replaying = false;
+static double g_first_fail = 0;
 extern const char* PROP_ID;
 
 static inline double now_s()
@@ -359,8 +360,15 @@ static void account(const CaseInfo& ci)
 }
 
 std::string run_case(Src& s, CaseInfo& ci);
-// optional per-property hooks
 void prop_init();
+// hand-written cases built directly as structures (independent of the generators,
+// so they cannot go stale): regression inputs and known-finding reproductions
+struct FixedCase
+{
+  std::string name;
+  std::function<std::string(CaseInfo&)> run;
+};
+std::vector<FixedCase> fixed_cases();
 
 static std::string record_failure(const Src& s, const CaseInfo& ci, const std::string& msg)
 {
@@ -416,8 +424,41 @@ extern "C" int LLVMFuzzerTestOneInput(const uint8_t* data, size_t size)
 }
 #else
 // -------------------------------------------------------------- rapidcheck
+static int run_fixed(const std::string& only)
+{
+  int rc = 0;
+  for (auto& fc : fixed_cases())
+  {
+    if (!only.empty() && fc.name != only)
+      continue;
+    CaseInfo ci;
+    std::string msg = fc.run(ci);
+    for (auto& k : ci.known) printf("KNOWN %s\n", k.c_str());
+    if (msg.empty())
+      printf("FIXED %s PASS\n", fc.name.c_str());
+    else
+    {
+      printf("FIXED %s FAIL %s\n%s\n", fc.name.c_str(), msg.c_str(), ci.desc.c_str());
+      rc = 1;
+    }
+  }
+  return rc;
+}
+
 static int replay_file(const std::string& path)
 {
+  {
+    std::ifstream in(path);
+    std::string line;
+    while (std::getline(in, line))
+      if (line.compare(0, 6, "fixed ") == 0)
+      {
+        g_replaying = true;
+        int rc = run_fixed(line.substr(6));
+        printf(rc ? "REPLAY-FAIL fixed case\n" : "REPLAY-PASS\n");
+        return rc;
+      }
+  }
   TapeSrc s;
   if (!read_tape_file(path, s.in))
   {
@@ -443,6 +484,7 @@ static int replay_file(const std::string& path)
 int main(int argc, char** argv)
 {
   std::string replay;
+  bool fixed = false;
   uint64_t cases = 1000;
   double budget = 0;
   for (int i = 1; i < argc; i++)
@@ -451,6 +493,8 @@ int main(int argc, char** argv)
     auto next = [&]() -> std::string { return i + 1 < argc ? argv[++i] : ""; };
     if (a == "--replay")
       replay = next();
+    else if (a == "--fixed")
+      fixed = true;
     else if (a == "--out")
       g_out = next();
     else if (a == "--cases")
@@ -481,6 +525,11 @@ int main(int argc, char** argv)
   prop_init();
   if (!replay.empty())
     return replay_file(replay);
+  if (fixed)
+  {
+    g_replaying = true;
+    return run_fixed("");
+  }
 
   if (budget > 0)
     g_deadline = now_s() + budget;
@@ -492,15 +541,29 @@ int main(int argc, char** argv)
   bool ok = rc::check(std::string(PROP_ID), [&]() {
     if (g_deadline > 0 && now_s() > g_deadline && g_stats.failure_msg.empty())
       return;  // budget used up: remaining iterations are no-ops (not counted)
+    // shrinking is bounded in time: once the budget is spent every further
+    // candidate "passes", so rapidcheck settles on the smallest failure so far
+    if (!g_stats.failure_msg.empty() && now_s() - g_first_fail > (g_tier ? 150.0 : 25.0))
+      return;
     RcSrc s;
     CaseInfo ci;
+    double t0 = now_s();
     std::string msg = run_case(s, ci);
+    double dt = now_s() - t0;
+    if (dt > 2.0)
+    {
+      g_stats.classes["slow-case(>2s)"]++;
+      if (getenv("VERIF_SHOW_SLOW"))
+        fprintf(stderr, "SLOW %.1fs\n%s\n", dt, ci.desc.substr(0, 600).c_str());
+    }
     if (g_stats.failure_msg.empty())
       account(ci);  // do not count shrink candidates
     if ((g_stats.cases & 0xff) == 0)
       dump_stats();
     if (!msg.empty())
     {
+      if (g_stats.failure_msg.empty())
+        g_first_fail = now_s();
       record_failure(s, ci, msg);
       RC_FAIL(msg);
     }
